@@ -407,6 +407,7 @@ class TableCase(PCase):
         self.pents = [{"uid": e["uid"], "attrs": [(k, self.hide_u(k, v)) for k, v in e["attrs"]],
                        "tags": e["tags"], "parents": e["parents"]} for e in w.entities]
         self.partial_store = False
+        self.missing = []
 
     def hide_u(self, k, v):
         if not k.startswith("u"):
